@@ -15,7 +15,7 @@ run_demo() {
 		python3 "$m/demo.py" >"$m/.demo.log" 2>&1; return $?
 	elif [ -f "$m/demo.sh" ]; then
 		cargo build --offline >/dev/null 2>&1; cargo build --offline --release >/dev/null 2>&1
-		sh "$m/demo.sh" >"$m/.demo.log" 2>&1; return $?
+		bash "$m/demo.sh" >"$m/.demo.log" 2>&1; return $?
 	fi
 	return 99
 }
